@@ -349,9 +349,12 @@ where
                 }
             } else if input.location_offset()
                 != input.token_change.new_token_pos(this_range.start)
+                || input.location_offset() - input.reference_pos != this.to_range().start
             {
                 // The tokens at the current location are not the ones of this node,
                 // e.g. because a previous node no longer covers all of its old tokens.
+                // Or they are, but their distance to the start of the enclosing reference changed,
+                // so that the range of this node is outdated.
                 affected_error(input)
             } else {
                 fn remove_messages(info: &mut AstInfo) {
